@@ -310,6 +310,13 @@ def run(ctx):
     _maps.rule_O_ORDER(ctx)
     import tables as _t2
     _t2.rule_T_IDENT_CLASS(ctx, _t2.Tables(ctx), models=("enum", "lex"))
+    # naming-law lints over the modules this property lives in (sibling slips: truth<->budget, stamp<->punctuation, left<->right, swapped arguments)
+    import roles as _roles
+    _roles.rule_R_ROLE(ctx, modules=('conversion::string::impl_enum::formatter', 'conversion::string::impl_lexical', 'conversion::string::common'))
+    _roles.rule_A_NAMES(ctx, modules=('conversion::string::impl_enum::formatter', 'conversion::string::impl_lexical', 'conversion::string::common'))
+    # every formatter function against its reviewed emission skeleton
+    import emit as _emit
+    _emit.rule_F_SKELETON_ALL(ctx)
     ctx.undecided = ["that the reference grammar derives the same tree as the lexical parser for every output (equivalence of two parsers over all strings)",
                      "PEG ordered-choice subtleties (e.g. the statement alternative tried before compound) are not modelled"]
     ctx.assumptions = ["unicodedata general categories P*/S* = pest's PUNCTUATION|SYMBOL", "the frozen reference lexicon was transcribed correctly from the OpenNARS wiki grammar"]
